@@ -57,6 +57,23 @@ class Coll:
     elem_ptr: bool = True  # container holds pointers (ATLAS) or values (CMS)
     builtin: bool = True  # else declared through metadata in the query
     banks: Tuple[str, ...] = ("b1",)
+    declared_elem_ptr: Optional[bool] = None  # CMS metadata key element_pointer (None: not sent)
+
+
+@dataclass
+class Enum:
+    ns: str  # dotted python namespace, e.g. "xAOD.Jet" (class scoped) or "MyNS"
+    name: str
+    values: Tuple[str, ...]
+    in_class: Optional[str] = None  # C++ class the enum is nested in (else namespace level)
+
+    @property
+    def dotted(self):
+        return f"{self.ns}.{self.name}"
+
+    @property
+    def cpp(self):
+        return self.dotted.replace(".", "::")
 
 
 @dataclass
@@ -65,6 +82,13 @@ class Schema:
     classes: Dict[str, C]
     colls: List[Coll]
     name: str = "std"
+    enums: List[Enum] = field(default_factory=list)
+
+    def enum(self, dotted) -> Enum:
+        for e in self.enums:
+            if e.dotted == dotted:
+                return e
+        raise KeyError(dotted)
 
     def coll(self, accessor) -> Coll:
         for c in self.colls:
@@ -211,6 +235,28 @@ def standard_schema(backend: str) -> Schema:
     return {"atlas": atlas_schema, "cms_aod": cms_aod_schema, "cms_miniaod": cms_miniaod_schema}[backend]()
 
 
+def enum_metadata(schema: Schema) -> List[dict]:
+    return [{"metadata_type": "define_enum", "namespace": e.ns, "name": e.name, "values": list(e.values)} for e in schema.enums]
+
+
+def collection_metadata(schema: Schema) -> List[dict]:
+    """Declarations of the collections that are not built into the translator."""
+    key = {"atlas": "add_atlas_event_collection_info", "cms_aod": "add_cms_aod_event_collection_info", "cms_miniaod": "add_cms_miniaod_event_collection_info"}[schema.backend]
+    out = []
+    for c in schema.colls:
+        if c.builtin:
+            continue
+        md = {"metadata_type": key, "name": c.accessor, "include_files": list(c.headers), "container_type": c.container, "contains_collection": not c.singleton}
+        if not c.singleton:
+            md["element_type"] = c.element
+        if schema.backend == "atlas" and c.libs:
+            md["link_libraries"] = list(c.libs)
+        if schema.backend != "atlas" and c.declared_elem_ptr is not None:
+            md["element_pointer"] = c.declared_elem_ptr
+        out.append(md)
+    return out
+
+
 def method_metadata(schema: Schema) -> List[dict]:
     """The add_method_type_info declarations a query over this schema carries."""
     out = []
@@ -220,7 +266,7 @@ def method_metadata(schema: Schema) -> List[dict]:
                 continue
             md = {"metadata_type": "add_method_type_info", "type_string": c.name, "method_name": m.name}
             if m.kind == "num":
-                md["return_type"] = m.ctype
+                md["return_type"] = m.enum.replace(".", "::") if m.enum else m.ctype
                 if m.tree_type:
                     md["tree_type"] = m.tree_type
             elif m.kind == "obj":
